@@ -51,11 +51,15 @@ class FileSystemLoader(BaseLoader):
         """
         template_path = Path(template_name)
 
-        if self.ext and not template_path.suffix:
-            template_path = template_path.with_suffix(self.ext)
-
         if template_path.is_absolute() or os.path.pardir in template_path.parts:
             raise TemplateNotFoundError(template_name)
+
+        if self.ext and not template_path.suffix:
+            try:
+                template_path = template_path.with_suffix(self.ext)
+            except ValueError as err:
+                # An empty name, like "" or ".".
+                raise TemplateNotFoundError(template_name) from err
 
         for path in self.search_path:
             source_path = path.joinpath(template_path)
